@@ -304,7 +304,7 @@ func c15Run(res *vResult, cs c15Case) (nop, nafter int) {
 			// was a write of this request failed?
 			failedHere := false
 			for _, w := range fp.log {
-				if w.Idx >= ctx.cmd0 && w.Err != "" && (w.Err == "injected transport error" || w.Err == "injected p4 error" || w.Err == "applied, response lost" || w.Err == "injected UNKNOWN without details") {
+				if w.Idx >= ctx.cmd0 && w.Err != "" && (w.Err == "injected transport error" || w.Err == "injected p4 error" || w.Err == "applied, response lost" || w.Err == "injected UNKNOWN without details" || strings.HasPrefix(w.Err, "injected per-update refusal")) {
 					failedHere = true
 				}
 			}
@@ -376,7 +376,7 @@ func TestVerifC15(t *testing.T) {
 	defer res.write(t)
 	res.Rule = "contexts {two sessions with application+session QER (all session meter cells in use), one such session} x faulted operation {establishment with app QER + new peer + new filter, with 2 QERs, " +
 		"with shared peer and shared filter, without QER; Update FAR to a new gNB; deletion} x every Write index k of that operation x failure shape {transport error, per-update P4Runtime error, " +
-		"applied-but-response-lost}, each followed by 3 further establish/delete cycles (application QER, filter, 2 QERs) with a repetition of a rejected deletion after the first of them; thorough: additionally every pair (k1,k2) with k2 in the faulted operation or the " +
+		"applied-but-response-lost, UNKNOWN without details, last update of the batch refused while the others are applied}, each followed by 3 further establish/delete cycles (application QER, filter, 2 QERs) with a repetition of a rejected deletion after the first of them; thorough: additionally every pair (k1,k2) with k2 in the faulted operation or the " +
 		"followers. Pools shrunk to counters 14, application cells 1..7, session cells 1..4 so that a wrongly recycled or migrated ID collides. distinct_nontrivial = fault cases executed"
 	res.Assumptions = []string{"owners are attributed from switch entries by UE address / TEID of sessions that are live in the model (accepted and not successfully deleted)",
 		"meter pools are shrunk in-package after the real initialisation (the P4Info keeps the shipped sizes)"}
@@ -386,7 +386,7 @@ func TestVerifC15(t *testing.T) {
 		c15Run(res, cs)
 		return
 	}
-	shapes := []string{"transport", "p4err", "lost", "unknown-bare"}
+	shapes := []string{"transport", "p4err", "lost", "unknown-bare", "refuse-last"}
 	item := 0
 	var ctxs, ops []string
 	for k := range c15Contexts {
